@@ -878,7 +878,7 @@ func (n *Net) Dialer(ws bool) func(ctx context.Context, network, addr string) (n
 		l := n.listeners[addr]
 		switch {
 		case n.S.Free() && l != nil:
-		case d.hangN > 0:
+		case ws && d.hangN > 0: // scripted redial outcomes concern the WebSocket client only
 			d.hangN--
 			ev.Outcome = "hang"
 			n.DialLog = append(n.DialLog, ev)
@@ -886,8 +886,8 @@ func (n *Net) Dialer(ws bool) func(ctx context.Context, network, addr string) (n
 			n.mu.Unlock()
 			<-ctx.Done()
 			return nil, &net.OpError{Op: "dial", Net: "sim", Err: ctx.Err()}
-		case d.down || d.refuseN > 0 || l == nil || l.closed:
-			if d.refuseN > 0 {
+		case d.down || (ws && d.refuseN > 0) || l == nil || l.closed:
+			if ws && d.refuseN > 0 {
 				d.refuseN--
 			}
 			ev.Outcome = "refused"
